@@ -16,8 +16,8 @@ HUGE, NEGHUGE = 1000000, -1000000
 HUGE_VALUES = [2 ** 31, 2 ** 62, 2 ** 63 - 1, 2 ** 62 + 1, 2 ** 61]
 NEGHUGE_VALUES = [-2 ** 31 - 1, -2 ** 62, -2 ** 63, -2 ** 61]
 SENT = 0xEE
-DTYPES = {1: ["byte", "char", "uint8", "int8", "bool"], 2: ["short", "int16", "uint16", "char2"],
-          4: ["int", "int32", "uint32", "float", "uchar4", "short2"]}
+DTYPES = {1: ["byte", "char", "uint8", "int8", "bool"], 2: ["short", "int16", "uint16", "char2"], 3: ["char3", "uchar3"],
+          4: ["int", "int32", "uint32", "float", "uchar4", "short2"], 8: ["double", "int64", "float2"]}
 ACTIONS = ["Malloc", "MallocFrom", "Wrap", "Slice", "Offset", "Cast", "Clone", "H2D", "D2H", "D2D", "Free", "HostPoke"]
 
 
@@ -269,6 +269,17 @@ def describe(beh, upto):
     return " ; ".join(out)
 
 
+MAX_REPORTS = 40
+
+
+def report(ctx, sig, what, replay):
+    """ctx.mismatch with a cap: one wrong handle makes every later observation differ, under many signatures"""
+    if len(ctx.mismatches) < MAX_REPORTS or (ctx.pid, sig) in ctx.known:
+        ctx.mismatch(sig, what, replay)
+    else:
+        ctx.cov["mismatches_not_reported"] = ctx.cov.get("mismatches_not_reported", 0) + 1
+
+
 # ----------------------------------------------------------------------------- main
 _tlc_slots = threading.Semaphore(4)
 
@@ -364,7 +375,7 @@ def trace_part(ctx, drv, env, thorough):
     outs, crashes = run_driver(ctx, drv, env, dcases)
     for cr in crashes:
         kind = crash_kind(cr.get("log")) or cr["crash"]
-        ctx.mismatch("driver-crash:%s" % kind, "random driver %s crashed at event %s: %s\n%s" %
+        report(ctx, "driver-crash:%s" % kind, "random driver %s crashed at event %s: %s\n%s" %
                      (dcases[cr["beh"]], cr["step"], kind, (cr.get("log") or "")[-1200:]), [{"driver": dcases[cr["beh"]]}])
     lines, index = [], []
     for i in sorted(outs):
@@ -377,14 +388,14 @@ def trace_part(ctx, drv, env, thorough):
     r, verdicts = validate_traces(ctx, lines, "all")
     for (l, names, call) in verdicts:
         if l < 1:
-            ctx.mismatch("trace:%s" % names[0], "DeviceMemoryTrace: %s violated while consuming the driver log" % names[0], lines)
+            report(ctx, "trace:%s" % names[0], "DeviceMemoryTrace: %s violated while consuming the driver log" % names[0], lines)
             continue
         ev = lines[l - 1]
         first = max(j for j in range(l) if lines[j]["a"] == "Reset")
         prev = lines[l - 2]["obs"] if l - 2 > first else None
         s = {"c": call, "kind": "?", "kind2": "?", "res": ev["res"]}
         sig = "trace:%s:%s:%s" % (ev["a"], "+".join(names), re.sub(r",?(on|dst|src)=\?", "", arg_class(s, prev)))
-        ctx.mismatch(sig, "driver execution (mode %s, seed %s), event %d: %s(v=%s,w=%s,x=%s,y=%s,z=%s,e=%s,f=%s) gave %s%s; the spec disagrees on %s" %
+        report(ctx, sig, "driver execution (mode %s, seed %s), event %d: %s(v=%s,w=%s,x=%s,y=%s,z=%s,e=%s,f=%s) gave %s%s; the spec disagrees on %s" %
                      (lines[first]["mode"], lines[first]["seed"], l - first - 1, ev["a"], ev["v"], ev["w"], ev["x"], ev["y"], ev["z"], ev["e"],
                       ev["f"], ev["res"], (" ubsan=" + ev["ubsan"]) if ev.get("ubsan") else "", names),
                      lines[first:l])
@@ -407,7 +418,7 @@ def run(ctx):
         if recs and "a" in recs[0]:           # a driver log
             r, verdicts = validate_traces(ctx, recs, "replay")
             for (l, names, call) in verdicts:
-                ctx.mismatch("trace:%s:%s" % (recs[l - 1]["a"] if l > 0 else "-", "+".join(names)), "event %d: %s" % (l, call), recs)
+                report(ctx, "trace:%s:%s" % (recs[l - 1]["a"] if l > 0 else "-", "+".join(names)), "event %d: %s" % (l, call), recs)
             ctx.cov["trace_events"] = len(recs)
             return ctx.finish(exhaustive=False)
         if recs and "driver" in recs[0]:      # a driver case that crashed
@@ -501,7 +512,7 @@ def run(ctx):
         else:
             sig = "crash:%s:outside-steps" % kind
             what = "%s outside the steps of [%s]\n%s" % (kind, describe(b, len(b)), (cr.get("log") or "")[-1500:])
-        ctx.mismatch(sig, what, [{"case": cases[i], "spec": b}])
+        report(ctx, sig, what, [{"case": cases[i], "spec": b}])
     for i, b in enumerate(behs):
         o = outs.get(i)
         if o is None:
@@ -521,7 +532,7 @@ def run(ctx):
                     if len(o["obs"][j]) > 1:
                         big = " with (x,y,z)=(" + ",".join(cases[i]["steps"][j]["alts"][q]) + ")"
                     sig = "%s:%s:%s" % (s["c"]["a"], bad[0], arg_class(s, prev))
-                    ctx.mismatch(sig, "%s after [%s]%s on %s: %s" % (s["c"]["a"], describe(b, j), big, o["mode"], bad[1]),
+                    report(ctx, sig, "%s after [%s]%s on %s: %s" % (s["c"]["a"], describe(b, j), big, o["mode"], bad[1]),
                                  [{"case": cases[i], "spec": b}])
                     break
             if bad:
@@ -554,7 +565,7 @@ def run(ctx):
     ctx.cov.update({"behaviours_replayed": len(outs), "steps_checked": steps_checked, "calls_executed": calls_executed,
                     "crashes": len(crashes), "behaviours_by_device": modes})
     ctx.assumptions += [
-        "replay: device allocations <= 8 bytes, <= 7 live handles, dtype sizes 1/2/4 (15 builtin dtypes), one 8-byte host array for wrapMemory",
+        "replay: device allocations <= 8 bytes, <= 7 live handles, dtype sizes 1/2/4 (15 builtin dtypes; also 3-byte char3/uchar3 in simulation and the thorough tier), one 8-byte host array for wrapMemory",
         "trace validation: allocations <= 16 bytes, 6 handle slots, a 16-byte host array, random data bytes 1..255",
         "HUGE/NEGHUGE are concretised to +-2^31, 2^61, 2^62, 2^62+1, 2^63-1, -2^63; malloc sizes stay <= 16 bytes (no huge allocations)",
         "bytes of a malloc without initial data are undefined in the spec and not compared until written",
@@ -568,5 +579,5 @@ def trace_part_cases(ctx, drv, env, dcases):
     outs, crashes = run_driver(ctx, drv, env, dcases)
     for cr in crashes:
         kind = crash_kind(cr.get("log")) or cr["crash"]
-        ctx.mismatch("driver-crash:%s" % kind, "random driver %s crashed at event %s" % (dcases[cr["beh"]], cr["step"]), [{"driver": dcases[cr["beh"]]}])
+        report(ctx, "driver-crash:%s" % kind, "random driver %s crashed at event %s" % (dcases[cr["beh"]], cr["step"]), [{"driver": dcases[cr["beh"]]}])
     return outs
